@@ -633,6 +633,23 @@ Proof.
   rewrite Hr in H. destruct H as [H|[]]. symmetry. exact H.
 Qed.
 
+(* the full routing statement (any maps whatsoever) and its refutation *)
+Definition routing_statement : Prop :=
+  forall s, exact_cover s -> forall (sm : Z -> sname) (wm : Z -> dname) (month dow : Z),
+  exists c, receivers s sm wm month dow = [c].
+
+Theorem routing_statement_refuted_l : ~ routing_statement.
+Proof.
+  intros H. destruct routing_refuted_l as (s & sm & wm & month & dow & Hc & _ & Hr).
+  destruct (H s Hc sm wm month dow) as (c & Hc'). rewrite Hr in Hc'. discriminate.
+Qed.
+
+Theorem calendar_ranges_l : forall z : Z,
+  (1 <= month_of z <= 12)%Z /\ (1 <= dom_of z <= 31)%Z /\ (1 <= dow_of z <= 7)%Z.
+Proof.
+  intros z. split; [apply month_of_range_l|split; [apply dom_of_range_l|apply dow_of_range_l]].
+Qed.
+
 (* ------------------------------------------------------------------ completeness of the candidate list:
    every partition of the six cells into blocks "day type x set of seasons" is offered *)
 Definition shape : Type := (daytype * (bool * bool * bool))%type.
